@@ -10,6 +10,12 @@ from .util import provides
 def validate_code(code):
     if ' ' in code:
         raise KeyFormatError(f"Code '{code}' contains spaces.")
+    try:
+        code.encode("utf-8")
+    except UnicodeEncodeError:
+        # e.g. a lone surrogate from a non-UTF-8 byte on the command line:
+        # say so now, not after the nameplate has been claimed
+        raise KeyFormatError(f"Code {code!r} cannot be encoded as UTF-8.")
     nameplate = code.split("-", 2)[0]
     validate_nameplate(nameplate)  # can raise KeyFormatError
 
